@@ -666,13 +666,14 @@ func (e *Exec) callByContract(ct *Contract, callee *ssa.Function, args []Val, si
 	// 2. frame
 	e.st = pre.clone()
 	if ct.HasFrame() {
-		for _, m := range ct.Modifies {
-			e.havocLV(env, m)
-		}
-		// allocation may have happened (also in a pure function: fresh results)
+		// allocation may have happened (also in a pure function: fresh results); the counter is advanced first so
+		// that the values written by the callee may refer to objects it allocated
 		nac := e.vc.Fresh("ac", SInt)
 		e.vc.Assume(True, IntLe(e.st.ac, nac))
 		e.st.ac = nac
+		for _, m := range ct.Modifies {
+			e.havocLV(env, m)
+		}
 	} else {
 		mods := map[string]string{}
 		if callee != nil {
